@@ -744,6 +744,20 @@ func runC08(w *World, r *Report) {
 					if st.Dir == types.SendOnly && !held.top && len(held.m) > 0 {
 						r.check(!sel.Blocking || selectHasCtxArm(sel), "no-blocking-send-under-lock", shortFn(fn)+"/select-send:"+pathOf(st.Chan), lineOf(w, sel),
 							"a select that sends while holding "+held.String()+" needs a ctx.Done() or default arm", "blocking select without escape arm")
+						// a ctx.Done() arm ends the wait only when the caller gives up: if the receiver of a long-lived channel
+						// needs the lock the sender holds, the send waits for the receiver and the receiver for the sender
+						if id := chanFieldIdent(st.Chan); id != "" && sel.Blocking {
+							bad := ""
+							for _, rf := range recvFnsByChan[id] {
+								for l := range held.m {
+									lid := l[2:]
+									if acquires[rf][lid] {
+										bad = fmt.Sprintf("receiver %s acquires %s between receives; the sender holds %s while it waits in the select when the buffer is full (the ctx.Done() arm only fires when the caller gives up)", shortFn(rf), lid, l)
+									}
+								}
+							}
+							r.check(bad == "", "no-blocking-send-under-lock", shortFn(fn)+"/select-send-cycle:"+pathOf(st.Chan), lineOf(w, sel), "no send/lock wait-for cycle on "+id, bad)
+						}
 					}
 				}
 				return
